@@ -490,9 +490,10 @@ RULE = ("circuits over the operations accepted by each compiler on an index set 
         "gates; non-trivial = set order != sorted order, or a dagger flag, or a hybrid circuit with >= 2 modes")
 TRUSTED_BASE = [
     "Coq 8.16.1 kernel; vm_compute (primitive floats) for evaluating the model on cases",
-    "hand-written models coq/C11/Model.v of GaussianUnitary.compile and Passive.compile (loop, index map, block "
-    "construction from primitive values, row operations), tied by float correspondence (tolerance 1e-9) on generated "
-    "circuits; the k>=3-mode expand(..)@Snet path is modelled by the equivalent row operation",
+    "hand-written models coq/C11/Model.v of GaussianUnitary.compile and Passive.compile (sorted index map, dagger "
+    "handling, block construction from primitive values, row operations), tied by float correspondence (tolerance "
+    "1e-9) on generated circuits; the k>=3-mode expand(..)@Snet path is modelled by the equivalent row operation; "
+    "a daggered D/R/S/S2/BS gate is modelled by sign flips of sin/sinh/amplitude (the code negates params[0])",
     "numpy elementary functions (cos, sin, cosh, sinh, sqrt, exp) evaluated by the harness on the arguments the code uses",
     "harness tools/props/c11.py: reference meaning of a source circuit = ordered product of the per-operation Gaussian "
     "channels measured on the gaussian backend through a Choi state (matrix operations from their defining matrix)",
@@ -503,10 +504,10 @@ ASSUMPTIONS = [
     "theorems hold over every commutative ring; trig/hyperbolic values enter as inputs, so no identity about them is needed",
     "the source-side meaning of a command with a dagger flag is the inverse gate (p[0] negated; U^dagger for MZgate/sMZgate)",
 ]
-MANIFEST_TEXT = ("C11: row-operation = left multiplication and the compile-loop invariant proved for all enumerations, sizes "
-                 "and command lists (gaussian_unitary, passive); full statement holds when set order = sorted order and no "
-                 "dagger flags (both exclusions refuted in Coq and reproduced on the code); gaussian_merge validated per "
-                 "output, partial")
+MANIFEST_TEXT = ("C11: row-operation = left multiplication, the compile-loop invariant, and C11_gunitary / C11_passive (full: "
+                 "every set enumeration, every accepted command list, with and without dagger flags) proved for the code as "
+                 "repaired by bc7648a/f18521d; the pre-fix behaviour is kept as *_old with its two refutations; "
+                 "gaussian_merge validated per output (proved validator + stand-in equivalence), partial")
 
 TOL = 1e-9
 TRANSIENT = []  # mismatches that vanished when the reference was recomputed (reported as a broken obligation)
@@ -872,25 +873,15 @@ def check_merge_case(ctx, spec, report=True):
                 else:
                     cls = "wrong-block-content"
                 sig = "gaussian_merge:%s:%s" % (fam, cls)
-                if not spec.get("_variant"):
-                    # conditional attribution to the two defects inherited from GaussianUnitary.compile: does the
-                    # failure disappear under an order-preserving relabelling to 0..k-1 (set order), after
-                    # stripping the dagger flags of Gaussian gates (dagger ignored), or both?
-                    mp = {m: i_ for i_, m in enumerate(used)}
-                    def variant(relabel, strip):
-                        return {"N": len(used) if relabel else spec["N"], "_variant": True,
-                                "cmds": [[n_, p_, [mp[m] for m in ms_] if relabel else ms_, (d_ if (n_ in NONGAUSS or not strip) else False)]
-                                         for n_, p_, ms_, d_ in spec["cmds"]]}
-                    has_dag = any(c[3] for c in spec["cmds"] if c[0] not in NONGAUSS)
-                    unsorted = used != list(range(len(used)))
-                    # (a variant that runs into the identity-block IndexError cannot show the wrong action any more)
-                    okv = lambda r_, s_: check_merge_case(ctx, variant(r_, s_), report=False)[0] in (None, "gaussian_merge:crash:IndexError@merge_a_gaussian_op")
-                    if unsorted and okv(True, False):
-                        sig, cls = "gaussian_merge:set-order", "set order (inherited from GaussianUnitary.compile)"
-                    elif has_dag and okv(False, True):
-                        sig, cls = "gaussian_merge:dagger-ignored", "dagger flags of merged Gaussian gates dropped (inherited)"
-                    elif unsorted and has_dag and okv(True, True):
-                        sig, cls = "gaussian_merge:set-order+dagger-ignored", "set order and dropped dagger flags (both inherited)"
+                if not spec.get("_variant") and any(c[3] for c in spec["cmds"] if c[0] not in NONGAUSS):
+                    # diagnostic: does the failure disappear when the dagger flags of Gaussian gates are stripped
+                    # (same DAG, so the surgery behaves identically)?  Then merged blocks mishandle the flag --
+                    # the defect repaired by f18521d; it is NOT a recorded finding any more.
+                    # (No such test for mode relabelling: the DAG tie-breaking legitimately depends on labels.)
+                    v = {"N": spec["N"], "_variant": True,
+                         "cmds": [[n_, p_, ms_, (d_ if n_ in NONGAUSS else False)] for n_, p_, ms_, d_ in spec["cmds"]]}
+                    if check_merge_case(ctx, v, report=False)[0] in (None, "gaussian_merge:crash:IndexError@merge_a_gaussian_op"):
+                        sig, cls = "gaussian_merge:dagger-ignored", "dagger flags of merged Gaussian gates dropped"
                 text = ("compiled hybrid circuit is not equivalent to the source (non-Gaussian gates replaced by generic "
                         "stand-ins; channel distance %.3g); class %s" % (channel_dist(src, dst), cls))
     if sig and sig.startswith("gaussian_merge:crash"):
@@ -981,9 +972,21 @@ class _Quiet:
         pass
 
 
+# minimal inputs of the defects repaired by the fix commits bc7648a (sorted mode order) and f18521d (dagger
+# honoured); evaluated first on every run -- if one of them fails again it is reported as a VIOLATION
+REGRESSION = [{'check': 'pure', 'compiler': 'gaussian_unitary', 'spec': {'N': 17, 'cmds': [['CXgate', [0.034], [16, 5], False]]}}, {'check': 'pure', 'compiler': 'gaussian_unitary', 'spec': {'N': 5, 'cmds': [['Xgate', [-0.46], [0], True]]}}, {'check': 'pure', 'compiler': 'passive', 'spec': {'N': 9, 'cmds': [['sMZgate', [-0.088, 2.5], [3, 8], False]]}}, {'check': 'pure', 'compiler': 'passive', 'spec': {'N': 2, 'cmds': [['Rgate', [-2.122], [1], True]]}}, {'check': 'merge', 'spec': {'N': 21, 'cmds': [['CXgate', [-0.697], [17, 2], False]]}}, {'check': 'merge', 'spec': {'N': 4, 'cmds': [['Pgate', [0.64], [3], True]]}}, {'check': 'merge', 'spec': {'N': 20, 'cmds': [['CXgate', [0.482], [5, 16], True]]}}]
+
+
 def replay_corpus(ctx):
     import glob
     import os
+    for k_, d in enumerate(REGRESSION):
+        if d["check"] == "pure":
+            res = check_pure(ctx, d["compiler"], d["spec"], "regression")
+            out_ = res.get("judge") or res["kind"]
+        else:
+            out_ = check_merge_case(ctx, d["spec"])[0] or "ok"
+        ctx.case({"regression": k_, "outcome": out_}, nontrivial=True, bucket="regression")
     for path in sorted(glob.glob(os.path.join(coq.VERIF, "corpus", "C11-*.json"))):
         try:
             d = json.load(open(path))["data"]
